@@ -46,8 +46,6 @@ def flags_dag(v0: int, v1: int, v2: int, z: int, g: int, z2: int, g2: int, p1_1:
     d = Dag(N, cached=cached, zreaders=zreaders)
     with notrace():
         d.S.new_cells("ul", formula="lambda lst: len(lst) + v0", is_cached=False)
-        d.S.new_cells("ulf", formula="lambda lst: 1 // (len(lst) - 3)", is_cached=False)     # fails for a list of three
-        d.S.new_cells("culf", formula="lambda: ulf([1, 2, 3]) + 1")
     d.bind([v0, v1, v2], [-1, p1_1, p1_2], [-1, p2_1, p2_2], [False, False, T2], z, g)
     done = []
     for step, (q, t) in enumerate(((q1, t1), (q2, t2))):
@@ -96,14 +94,39 @@ def flags_dag(v0: int, v1: int, v2: int, z: int, g: int, z2: int, g2: int, p1_1:
             if not check(r[0] == "ok" and r[1] == d.val(q, t), "value after changing %s under this flag assignment" % ("Sub.z" if which == 0 else "g"), lambda: (r, d.val(q, t))):
                 return False
     r = call(d.S.cells["ul"], [1, 2, 3])
-    if not check(r[0] == "ok" and r[1] == 3 + v0, "uncached cells accept an unhashable argument", lambda: r):
-        return False
-    for nm, args in (("ulf", ([1, 2, 3],)), ("culf", ())):
-        r = call(d.S.cells[nm], *args)
-        if not check(r[0] == "err" and r[1] == "ZeroDivisionError", "an uncached cells failing on an unhashable argument reports its own exception (%s)" % nm, lambda: r):
-            return False
-    r = call(d.S.cells["ulf"], [1, 2])
-    return check(r[0] == "ok" and r[1] == -1 and executor_idle(), "and computes afterwards", lambda: r)
+    return check(r[0] == "ok" and r[1] == 3 + v0, "uncached cells accept an unhashable argument", lambda: r)
+
+
+@harness
+def unhashable(v: int, n: int, via: int) -> bool:
+    """An uncached cells called with an unhashable argument (a list): values, and - when its formula raises - the caller gets
+    the FormulaError carrying the formula's own exception, directly and through a cached caller; nothing is left executing."""
+    n, via = pick(n, 0, 3), pick(via, 0, 2)
+    with notrace():
+        m = new_model("UH")
+        S = m.new_space("S")
+        S.v = v
+        S.new_cells("ulf", formula="lambda lst: v + 6 // (len(lst) - 2)", is_cached=False)       # fails for a list of two
+        S.new_cells("culf", formula="lambda k: ulf(list(range(k))) + 1")
+        S.new_cells("uulf", formula="lambda k: ulf(list(range(k))) + 2", is_cached=False)
+    label("list of %d through %s" % (n, ("a direct call", "a cached caller", "another uncached cells")[via]))
+    for rep in range(2):
+        r = call(S.cells["ulf"], list(range(n))) if via == 0 else call(S.cells["culf"], n) if via == 1 else call(S.cells["uulf"], n)
+        if n == 2:
+            if not check(r[0] == "err" and r[1] == "ZeroDivisionError", "a failing uncached call with an unhashable argument reports the formula's own exception", lambda: r):
+                return False
+            with notrace():
+                e = mx.get_error()
+                oke = type(e).__name__ == "ZeroDivisionError"
+            if not check(oke and executor_idle(), "get_error() is the original exception and nothing is left executing"):
+                return False
+        else:
+            want = v + 6 // (n - 2) + (0, 1, 2)[via]
+            if not check(r[0] == "ok" and r[1] == want, "value through an unhashable argument", lambda: (r, want)):
+                return False
+    with notrace():
+        empty = len(S.cells["ulf"]) == 0 and len(S.cells["uulf"]) == 0
+    return check(empty, "uncached cells hold nothing")
 
 
 def _runs(d, q, t, done):
@@ -154,4 +177,10 @@ QUERIES = [
           bounds=lambda tier: {"cells": N, "masks": "all 8", "requests": 2, "flag_flip_between": "none or one cells", "then": "Sub.z (attribute path) and g (by name) re-assigned, both requests repeated", "dag": "pointers symbolic"},
           outside=["N > 3"]),
 ]
+QUERIES.append(
+    Query("unhashable", unhashable, pre=["0 <= n <= 3", "0 <= via <= 2"],
+          partitions=lambda tier, seed: [dict(via=v_) for v_ in range(3)],
+          natives=[dict(v=7, n=n_, via=v_) for n_ in (0, 2, 3) for v_ in (0, 1, 2)],
+          bounds=lambda tier: {"argument": "lists of length 0..3 (length 2 makes the formula raise ZeroDivisionError)", "callers": ["direct", "cached cells", "uncached cells"], "value": "unbounded symbolic int", "repeats": 2},
+          outside=["other unhashable types"]))
 BUDGET = {"quick": 420, "thorough": 1200}
